@@ -5,3 +5,4 @@ CONSTANTS
   VecMax = 2
   DecLen = 1
   IterLen = 1
+  IterCls = {"al", "amp", "eq", "u3", "plus"}
